@@ -163,10 +163,10 @@ impl<'a> Recorder<'a> {
                         }
                     }
                 }
-                Call::New { .. } | Call::Clone { .. } | Call::Reload { .. } | Call::Slice { .. } | Call::Merge { .. } | Call::Deploy { .. } => {
+                Call::New { .. } | Call::Clone { .. } | Call::Reload { .. } | Call::Load { .. } | Call::Slice { .. } | Call::Merge { .. } | Call::Deploy { .. } => {
                     // bookkeeping for copies and composite calls is not kept: forget the handles they write
                     let hs: Vec<usize> = match &c.call {
-                        Call::Clone { dst } | Call::Reload { dst } | Call::Slice { dst, .. } => vec![*dst],
+                        Call::Clone { dst } | Call::Reload { dst } | Call::Load { dst } | Call::Slice { dst, .. } => vec![*dst],
                         _ => vec![c.h],
                     };
                     self.own.retain(|(h, _), _| !hs.contains(h));
@@ -381,12 +381,12 @@ pub fn run(o: &DriveOpts, out: &mut dyn Write, tid: usize) -> Value {
     }
 
     if profile == "deepchain" {
-        // ONE path of 140 (capacity permitting) vertices through nine or ten groups (chains of at most 15 built apart, then
+        // ONE path of 140 or 224 (capacity permitting) vertices through ten or fourteen groups (chains built apart, then
         // linked: binding two grouped vertices changes no group), data here and there; the observers at the end (inspect from
         // the head walks 139 edges deep), then the groups read out from the tail
         let nl = o.n.max(1).min(labels.len());
-        let total = 140usize.min(o.cap);
-        let seg = 15usize;
+        // (seed odd: 224 vertices = 14 groups of 16, every vertex that can carry an edge at all; seed even: 140 in segments of 15)
+        let (total, seg) = if o.seed % 2 == 1 { (224usize.min(o.cap), 16usize) } else { (140usize.min(o.cap), 15usize) };
         for v in 0..total {
             ok = ok && rec.call(&mut w, HCall { h: 0, call: Call::Add { v } });
         }
@@ -471,7 +471,15 @@ pub fn run(o: &DriveOpts, out: &mut dyn Write, tid: usize) -> Value {
         // save+load and clone / clone_from, mirrored: a pair with the big datum on one member, read once (kept: the other
         // member holds an unread one), copied, read again on both sides, then the group read out on both sides.
         // In the trace the datum is the token "~big:<len>:<seed>" (real::hex_text), so the lines stay short.
-        let sizes = [70_000usize, 4096, 4095, (1 << 20) + 3, (16 << 20) + 1, 17 << 20];
+        // the destination of the copies is, to begin with, a graph of TWICE the capacity with a bound pair at ids the source
+        // does not even have: clone_from / load into it must leave nothing of it behind
+        ok = ok
+            && rec.call(&mut w, HCall { h: 1, call: Call::New { n: o.n, cap: o.cap * 2 } })
+            && rec.call(&mut w, HCall { h: 1, call: Call::Add { v: o.cap + 2 } })
+            && rec.call(&mut w, HCall { h: 1, call: Call::Add { v: o.cap + 3 } })
+            && rec.call(&mut w, HCall { h: 1, call: Call::Bind { v1: o.cap + 2, v2: o.cap + 3, a: labels[0].clone() } })
+            && rec.call(&mut w, HCall { h: 1, call: Call::Put { v: o.cap + 3, d: datas[1].clone() } });
+        let sizes = [4096usize, 70_000, 4095, (1 << 20) + 3, (16 << 20) + 1, 17 << 20, (64 << 20) + 4096];
         for (i, sz) in sizes.iter().enumerate() {
             if !ok || 2 * i + 1 >= o.cap {
                 break;
@@ -493,10 +501,17 @@ pub fn run(o: &DriveOpts, out: &mut dyn Write, tid: usize) -> Value {
                 && rec.call(&mut w, HCall { h: 0, call: Call::Put { v: b, d: big.clone() } })
                 && rec.call(&mut w, HCall { h: 0, call: Call::Put { v: a, d: datas[i % datas.len()].clone() } })
                 && rec.call(&mut w, HCall { h: 0, call: Call::Data { v: b } })
-                && rec.call(&mut w, HCall { h: 0, call: if i % 2 == 0 { Call::Reload { dst: 1 } } else { Call::Clone { dst: 1 } } });
+                && rec.call(&mut w, HCall { h: 0, call: if i % 2 == 0 { Call::Clone { dst: 1 } } else { Call::Reload { dst: 1 } } });
             ok = ok && w.gs.get(1).map(|x| x.is_some()).unwrap_or(false);
+            if ok && *sz <= (1 << 20) + 3 {
+                // the printers on data of this size (original and copy): every byte is there (the texts are a few MB at most)
+                let what: Vec<String> = ["xml", "dot", "debug", "display"].iter().map(|x| x.to_string()).collect();
+                for hh in [0usize, 1] {
+                    rec.events += crate::observers::observe_all(&w, hh, rec.tid, &what, rec.out);
+                }
+            }
             ok = ok && both(&mut rec, &mut w, Call::Data { v: b });
-            ok = ok && rec.call(&mut w, HCall { h: 0, call: if i % 2 == 0 { Call::Clone { dst: 1 } } else { Call::Reload { dst: 1 } } });
+            ok = ok && rec.call(&mut w, HCall { h: 0, call: if i % 2 == 0 { Call::Reload { dst: 1 } } else { Call::Clone { dst: 1 } } });
             ok = ok && both(&mut rec, &mut w, Call::Data { v: b });
             ok = ok && both(&mut rec, &mut w, Call::Put { v: b, d: big.clone() });
             ok = ok && both(&mut rec, &mut w, Call::Data { v: a });
@@ -1299,6 +1314,7 @@ pub fn run(o: &DriveOpts, out: &mut dyn Write, tid: usize) -> Value {
     // random part ----------------------------------------------------------------------
     let mut twin_alive = false;
     let mut twin_is_clone = false;
+    let mut saved_at: Option<usize> = None;
     let mut pending: std::collections::VecDeque<Call> = std::collections::VecDeque::new();
     while ok && rec.events < o.steps {
         let vw = view(&w, 0);
@@ -1523,6 +1539,19 @@ pub fn run(o: &DriveOpts, out: &mut dyn Write, tid: usize) -> Value {
                 *vw.present.choose(&mut rng).unwrap()
             };
             Some(Call::Data { v })
+        } else if rng.gen_bool(0.35) {
+            // a checkpoint written now and read back LATER (the original has moved on: the file is a snapshot in time)
+            match saved_at {
+                Some(at) if rec.events >= at + 6 => {
+                    saved_at = None;
+                    Some(Call::Load { dst: 1 })
+                }
+                Some(_) => None,
+                None => {
+                    saved_at = Some(rec.events);
+                    Some(Call::Save)
+                }
+            }
         } else {
             // a twin: clone or save+load into handle 1, then mirrored calls
             twin_is_clone = rng.gen_bool(0.5);
@@ -1534,9 +1563,23 @@ pub fn run(o: &DriveOpts, out: &mut dyn Write, tid: usize) -> Value {
             // legitimately take other ids there, so the side-by-side comparison ends here
             twin_alive = false;
         }
+        if matches!(call, Call::Load { .. }) {
+            // the loaded graph is the PAST of the original: no mirroring from here on; it is used on its own for a few calls
+            twin_alive = false;
+            ok = rec.call(&mut w, HCall { h: 0, call: call.clone() });
+            for _ in 0..rng.gen_range(2..6) {
+                if !ok || !w.gs.get(1).map(|x| x.is_some()).unwrap_or(false) {
+                    break;
+                }
+                let pres = w.g(1).keys().unwrap_or_default();
+                let Some(v) = pres.choose(&mut rng).copied() else { break };
+                ok = rec.call(&mut w, HCall { h: 1, call: if rng.gen_bool(0.4) { Call::Put { v, d: datas.choose(&mut rng).unwrap().clone() } } else { Call::Data { v } } });
+            }
+            continue;
+        }
         let mirrored = twin_alive
             && w.gs.get(1).map(|x| x.is_some()).unwrap_or(false)
-            && !matches!(call, Call::Clone { .. } | Call::Reload { .. } | Call::Slice { .. })
+            && !matches!(call, Call::Clone { .. } | Call::Reload { .. } | Call::Slice { .. } | Call::Save)
             && (twin_is_clone || !matches!(call, Call::NextId));
         ok = rec.call(&mut w, HCall { h: 0, call: call.clone() });
         if matches!(call, Call::Clone { .. } | Call::Reload { .. }) {
